@@ -1384,6 +1384,40 @@ def probe_optimized():
     return out
 
 
+def probe_population_selection():
+    """the decision 'a population gets a location table' must depend on the presence of <instance> children only: probed over
+    instances yes/no x type in {unset, population, populationList} x size in {unset, = number of instances, another number}
+    -> [has_instances, type, size class, table written with x/y/z, size attribute = what the loader will report]"""
+    n = neuroml
+    out = []
+    for has in (True, False):
+        for typ in (None, "population", "populationList"):
+            for sc in ("unset", "equal", "other"):
+                size = {"unset": None, "equal": 2 if has else 7, "other": 5}[sc]
+                p = n.Population(id="P", component="C", type=typ, size=size)
+                if has:
+                    for i in range(2):
+                        o = n.Instance(id=i)
+                        o.location = n.Location(x=1.5 + i, y=0.0, z=2.5)
+                        p.instances.append(o)
+                f = MFile()
+                top = MNode("network")
+                try:
+                    p.exportHdf5(f, top)
+                except Exception:  # noqa: BLE001
+                    out.append([has, str(typ), sc, False, False])
+                    continue
+                g = top.children[0]
+                arrs = [c for c in g.children if isinstance(c, MArray)]
+                table = bool(len(arrs) == 1 and arrs[0].obj.shape == (2, 3)
+                             and sorted(str(v) for _, v in arrs[0].attrs) == ["x", "y", "z"]) if has else False
+                written = bool(arrs)
+                sz = dict(g.attrs).get("size")
+                size_ok = (sz == 2) if has else (sz == size)
+                out.append([has, str(typ), sc, written and (table or not has), bool(size_ok)])
+    return out
+
+
 # ------------------------------------------------------------------------------------------ Coq rendering
 def cs(s):
     assert all(ord(c) < 128 for c in s)
@@ -1491,11 +1525,13 @@ def render(t):
         ots.append("{| ot_kind := %s; ot_variant := %s; ot_entries := %s;\n     ot_dropped := %s |}" % (
             cs(o["kind"]), cs(o["variant"]), es, cl([cs(x) for x in o["dropped"]])))
     L.append("Definition optimized_tables : list otable :=\n  " + cl(["\n   " + x for x in ots]) + ".\n")
+    L.append("Definition population_selection : list (bool * string * string * bool * bool) := %s.\n" %
+             cl(["(%s, %s, %s, %s, %s)" % (cb(a), cs(b), cs(c), cb(d), cb(e)) for a, b, c, d, e in t["popsel"]]))
     L.append("\nDefinition gen : h5gen := {| g_writer := writer_tables; g_reader := reader_tables; g_builder := builder_table;\n"
              "  g_sized_pop_w := sized_population_gattrs; g_sized_pop_r := sized_population_gattrs_r;\n"
              "  g_doc_w := document_gattrs_w; g_doc_r := document_gattrs_r; g_net_w := network_gattrs_w; g_net_r := network_gattrs_r;\n"
              "  g_prop_prefix := property_prefix_ok; g_none_notes := none_notes_read_as; g_absent_temp := absent_temperature_read_as;\n"
-             "  g_builder_strings := builder_strings; g_refusals := refusals; g_delay_units := delay_units;\n  g_select := select_probes; g_zero := zero_cells; g_precision := builder_precision; g_merge := merge_probe; g_strings := string_probe;\n  g_skel := skel; g_opt := optimized_tables |}.")
+             "  g_builder_strings := builder_strings; g_refusals := refusals; g_delay_units := delay_units;\n  g_select := select_probes; g_zero := zero_cells; g_precision := builder_precision; g_merge := merge_probe; g_strings := string_probe;\n  g_skel := skel; g_opt := optimized_tables; g_popsel := population_selection |}.")
     return "\n".join(L) + "\n"
 
 
@@ -1520,6 +1556,7 @@ def main():
     t["precision"] = probe_builder_precision()
     t["merge"] = probe_merge()
     t["strings"] = probe_strings()
+    t["popsel"] = probe_population_selection()
     t["skeleton"] = probe_skeleton()
     t["optimized"] = probe_optimized()
     print(json.dumps({"json": t, "coq": render(t)}))
